@@ -23,8 +23,9 @@ RULE = ('cases are (table with labels over any printable text incl. \\n \\r \\t,
         'thorough = 512..4096 concepts, chains of 400 / 1000) x {dict, dict through json.dumps/loads, tojson/fromjson '
         'to str path / pathlib.Path / file object with indent and sort_keys variants, python-literal string, '
         'python-literal file utf-8 / utf-16} x dump ignore_lattice {False, True, None before / after the lattice was '
-        'touched} x load ignore_lattice x raw {False, True with a seed-derived permutation of the lattice list '
-        '(indexes remapped), of every inner index sequence and of every context row} x pickles of Context and Lattice, '
+        'touched} x load ignore_lattice x raw {False, True with seed-derived, independently chosen permutations of the '
+        'lattice list (indexes remapped), of the neighbour index lists, of the extent / intent index lists and of '
+        'the context rows} x pickles of Context and Lattice, '
         'loaded in-process and in fresh interpreters with other PYTHONHASHSEED values. '
         '(Pickles of individual Concept objects are not part of the property and are not generated.) Oracle: (a) todict() == the encoding computed from the reference model; (b) every loader returns a context '
         '== the original with identical triple, a lattice attached exactly when stored and not ignored, and the '
@@ -76,21 +77,33 @@ class Work:
 
 
 def permuted(d, rnd):
-    """A raw=True-legal permutation of a serialisation (nested lists or tuples)."""
-    out = dict(d)
+    """A raw=True-legal permutation of a serialisation (nested lists or tuples).
 
-    def sh(seq):
+    Which of the four order-free parts are permuted is chosen independently (lattice list with remapped
+    indexes, neighbour index lists, extent/intent index lists, context rows), at least one of them: a reload
+    must not depend on, say, the concept list being out of order for the neighbour lists to be re-sorted.
+    """
+    out = dict(d)
+    flags = [rnd.random() < .5 for _ in range(4)]
+    if not any(flags):
+        flags[rnd.randrange(4)] = True
+    p_lattice, p_neighbours, p_members, p_rows = flags
+
+    def sh(seq, on=True):
         seq = list(seq)
-        rnd.shuffle(seq)
+        if on:
+            rnd.shuffle(seq)
         return seq
-    out['context'] = [sh(r) for r in d['context']]
+    out['context'] = [sh(r, p_rows) for r in d['context']]
     if 'lattice' in d:
         lat = d['lattice']
         perm = list(range(len(lat)))
-        rnd.shuffle(perm)
+        if p_lattice:
+            rnd.shuffle(perm)
         newpos = {old: new for new, old in enumerate(perm)}
-        out['lattice'] = [[sh(lat[old][0]), sh(lat[old][1]), sh(newpos[u] for u in lat[old][2]),
-                           sh(newpos[l] for l in lat[old][3])] for old in perm]
+        out['lattice'] = [[sh(lat[old][0], p_members), sh(lat[old][1], p_members),
+                           sh((newpos[u] for u in lat[old][2]), p_neighbours),
+                           sh((newpos[l] for l in lat[old][3]), p_neighbours)] for old in perm]
     return out
 
 
